@@ -93,10 +93,12 @@ def full_width(curves, rng, quick, scale=1.0):
         corners = gen_ep2.scalar_corners(cv, rng, nrand=4 if quick else 12, nlong=3 if quick else 10)
         per_op = max(6, int((10 if quick else 0.5 * len(corners)) * scale))
 
-        def ks_for(op, corners=corners, per_op=per_op):
+        must = [0, cv.n, 2 * cv.n, -cv.n, cv.n - 1, cv.n + 1, 1, -1]       # for EVERY routine
+
+        def ks_for(op, corners=corners, per_op=per_op, must=must):
             if per_op >= len(corners):
                 return list(corners)
-            return rng.sample(corners, per_op)
+            return must + rng.sample(corners, per_op)
         pms = [m for m in ms if m % cv.n != 0]
         # + scalars structured in the Frobenius basis (every zero pattern of the four GLS sub-scalars)
         frb = gen_ep2.frb_corners(cv, rng, per=1, variants=not quick)
@@ -121,7 +123,7 @@ def full_width(curves, rng, quick, scale=1.0):
         mul += m
         # ---- Frobenius on subgroup points, cofactor clearing on curve points outside the subgroup
         f = gen_ep2.frb_cases(cv, rng, [1, 2, cv.n - 1, rng.randrange(cv.n)] + ([] if quick else [rng.randrange(cv.n) for _ in range(4)] + [0]),
-                              seeds[:1 if quick else 4])
+                              seeds[:1 if quick else 4], powers=(0, 1, 2, 3) if quick else (0, 1, 2, 3, 4, 6, 12))
         f += gen_ep2.cof_cases(cv, rng, [0, 1, rng.randrange(cv.n)], seeds)
         rng.shuffle(f)
         endo += f
